@@ -385,6 +385,12 @@ impl Exec {
                         let transient = op["transient"].as_bool().unwrap_or(true);
                         node.faults.block_fail.insert(h, (times, transient));
                     }
+                    "get_odd" => {
+                        // the next getrawtransaction calls are answered with an unexpected error code / a malformed result
+                        for v in op["replies"].as_array().unwrap() {
+                            node.faults.get_odd.push_back(v.as_i64().map(|c| c as i32));
+                        }
+                    }
                     "http503" => {
                         let base = node.rpc_calls;
                         for i in op["at"].as_array().unwrap() {
